@@ -101,7 +101,7 @@ impl<Out: ExchangeData> Batcher<Out> {
 '''
 
 def build(x):
-    pieces = [S.VEC_CAPACITY, PRELUDE]
+    pieces = [S.VEC_CAPACITY, S.MEM_REPLACE, PRELUDE]
     se = x.enum(FO, 'StreamElement')
     pieces.append(se)
     c = x.struct(FN, 'Coord'); c.text = '#[derive(Clone, Copy)]\n' + c.text
